@@ -6,7 +6,7 @@ class C05(ProgProp):
     report = ("C05",)
     cross_check = False
     cfg = {"p_sync": 0.08, "p_try": 0.1, "p_fault": 0.05, "max_kinds": 4, "item_faults": 0.06, "flush_faults": 0.12,
-           "p_item": 0.55, "base_exc": 0.3, "p_item_value_sync": 0.15, "flush_reenter": 0.25}
+           "p_item": 0.55, "base_exc": 0.3, "p_item_value_sync": 0.15, "flush_reenter": 0.25, "flush_cancels": 0.3}
 
     def tune(self, rng, cfg, tier):
         if rng.random() < 0.6:
